@@ -121,7 +121,7 @@ def main():
                'enable': 'none needed: every check reads the source of /repo/desper with ast; nothing in /repo is instrumented, no hook commits exist',
                'baseline_off_cmd': BASE, 'source_commits': [], 'add_only': True},
      'engines': [{'name': 'dlint', 'path': 'dlint/', 'serves_properties': [c['property_id'] for c in checks],
-                  'kind_free_text': 'stdlib-ast static analysis: program model (classes, MRO, imports), PathEval path enumerator with symbolic environment / condition memo / bounded loops / exception edges / callee summaries, per-property abstract domains; rules in rules/cNN.py; never imports the analysed package'}],
+                  'kind_free_text': 'stdlib-ast static analysis: program model (classes, MRO, imports), PathEval path enumerator with symbolic environment / condition memo / bounded loops / exception edges / callee summaries, per-property abstract domains; a normalisation pass undoing behaviour-preserving presentation choices (private attributes renamed consistently, property(), private record types, private constants, simple decorators, assignment expressions); a statement budget per walk (ANALYSIS-ERROR beyond it); rules in rules/cNN.py; never imports the analysed package'}],
      'checks': checks,
      'notes': 'Exit codes: 0 held; 1 with VIOLATION lines; 2 ANALYSIS-ERROR (analysis does not cover the code). Known findings: known_findings.json. Seeded changes used to test the checks: seeded/ and regressions/.',
      'not_applicable': na,
